@@ -3,6 +3,9 @@ package rules
 import (
 	"fmt"
 	"go/token"
+	"go/types"
+
+	"golang.org/x/tools/go/ssa"
 
 	"verif/wscheck/internal/fold"
 )
@@ -718,4 +721,101 @@ func writerGrowRules(c *Ctx, prop string) {
 	}
 	c.R.AddCells(len(jobs))
 	c.verdict(rule, rule+"/Grow", c.P.FuncPos(f), uniq(problems), fmt.Sprintf("%d (side, buffer, fill, n) combinations", len(jobs)))
+}
+
+// counterWidthRules: a field the code counts in (x.f++ / x.f += n: the fragment
+// number of a message, a stream position, a byte count) is as wide as int. A
+// narrower counter wraps on a long message - fragment 256 of a message would be
+// numbered 0 again and leave as a new text frame instead of a continuation.
+func counterWidthRules(c *Ctx, prop string) {
+	rule := prop + ".counter-width"
+	c.R.Rule(rule, 3, "every struct field that is incremented is at least as wide as int")
+	type fk struct {
+		t *types.Named
+		i int
+	}
+	seen := map[fk]string{}
+	intSize := int64(fold.IntSize / 8)
+	sizeOf := func(t types.Type) int64 {
+		if b, ok := t.Underlying().(*types.Basic); ok {
+			switch b.Kind() {
+			case types.Int8, types.Uint8:
+				return 1
+			case types.Int16, types.Uint16:
+				return 2
+			case types.Int32, types.Uint32:
+				return 4
+			case types.Int64, types.Uint64:
+				return 8
+			}
+		}
+		return intSize
+	}
+	for _, fn := range c.P.AllModuleFuncs() {
+		for _, b := range fn.Blocks {
+			for _, in := range b.Instrs {
+				st, ok := in.(*ssa.Store)
+				if !ok {
+					continue
+				}
+				fa, ok := st.Addr.(*ssa.FieldAddr)
+				if !ok {
+					continue
+				}
+				v := st.Val
+				if cv, ok := v.(*ssa.Convert); ok {
+					v = cv.X
+				}
+				bo, ok := v.(*ssa.BinOp)
+				if !ok || bo.Op != token.ADD {
+					continue
+				}
+				selfLoad := func(x ssa.Value) bool {
+					if cv, ok := x.(*ssa.Convert); ok {
+						x = cv.X
+					}
+					ld, ok := x.(*ssa.UnOp)
+					if !ok {
+						return false
+					}
+					fa2, ok := ld.X.(*ssa.FieldAddr)
+					return ok && fa2.Field == fa.Field && fa2.X.Type() == fa.X.Type()
+				}
+				if !selfLoad(bo.X) && !selfLoad(bo.Y) {
+					continue
+				}
+				pt, ok := fa.X.Type().Underlying().(*types.Pointer)
+				if !ok {
+					continue
+				}
+				n, ok := pt.Elem().(*types.Named)
+				if !ok {
+					continue
+				}
+				stt, ok := n.Underlying().(*types.Struct)
+				if !ok {
+					continue
+				}
+				k := fk{n, fa.Field}
+				if _, done := seen[k]; done {
+					continue
+				}
+				seen[k] = c.P.Pos(st.Pos())
+				fld := stt.Field(fa.Field)
+				bt, isBasic := fld.Type().Underlying().(*types.Basic)
+				fname := fld.Name()
+				if o, ok := fieldCanon[fld]; ok {
+					fname = o
+				}
+				key := rule + "/" + n.Obj().Name() + "." + fname
+				if !isBasic || bt.Info()&types.IsInteger == 0 {
+					continue
+				}
+				c.R.Sites++
+				c.R.Check(sizeOf(fld.Type()) >= intSize, rule, key, c.P.Pos(st.Pos()),
+					fmt.Sprintf("%s counts in %s", fld.Name(), fld.Type()),
+					fmt.Sprintf("%s.%s is incremented at %s but is only a %s: it wraps after %d steps and the count starts again", n.Obj().Name(), fld.Name(), c.P.Pos(st.Pos()), fld.Type(), uint64(1)<<(8*uint(sizeOf(fld.Type())))))
+			}
+		}
+	}
 }
